@@ -30,9 +30,12 @@ pub fn cases_for(prop: &str, tier: &str, r: &mut Rng) -> Vec<Case> {
         "C03" | "C04" | "C05" | "C13" | "C14" | "C09" | "C08" => {
             per_lang(&mut |l, r| match_cases(l, r, scale(t, 25, 600)), r, &mut cs);
             per_lang(&mut |l, r| store_cases(l, r, scale(t, 5, 100)), r, &mut cs);
+            // the same searches as users reach them: through the top-level API and its result buffers
+            cs.extend(reg_cases(r, scale(t, 6, 100)));
         }
         "C06" | "C07" | "C12" | "C10" => {
             per_lang(&mut |l, r| store_cases(l, r, scale(t, 12, 300)), r, &mut cs);
+            cs.extend(reg_cases(r, scale(t, 6, 100)));
         }
         "C11" | "C15" => {
             per_lang(&mut |l, r| tok_exhaustive(l, scale(t, 3, 4), 600), r, &mut cs);
